@@ -440,7 +440,7 @@ func c10Run(c *C) {
 			return false
 		}
 		before := atomic.LoadInt64(&c10Boom)
-		out, xerr := tpl.Execute(c10Ctx())
+		out, xerr := execSpread(tpl, c10Ctx(), uint64(c.R.Intn(4)))
 		c.Eval(1)
 		want := c10Expected(ch)
 		if want == c10Cyclic {
